@@ -238,9 +238,9 @@ class InitMonitor(Monitor):
 def setup(concepts, spec):
     D = concepts.Definition
     defs = concepts.definitions
-    attach.attach(defs.Triple, '__init__', InitMonitor(D))
+    attach.attach(concepts.Definition, '__init__', InitMonitor(D))
     for op in MUTATORS:
-        attach.attach(defs.MutableMixin, op, MutatorMonitor(op, D))
+        attach.attach(concepts.Definition, op, MutatorMonitor(op, D))
 
 
 # ---------------------------------------------------------------------------
